@@ -27,6 +27,7 @@ GStart == 1000
 GRes == 1010
 GRec == 1011
 GTwice == 1012
+GMkP == 1013
 
 TB == TName("B")
 TE == TName("E")
@@ -59,6 +60,11 @@ Prelude == <<
        Fn(<<P(7, TInt)>>, TFn(<<>>, TInt),
           <<DefM(8, TInt, V(7)), Ex(Fn(<<>>, TInt, <<Asg("+=", V(8), I(1)), Ex(V(8))>>))>>), "mkc"),
   DefN(GBumpG, "const", TNone, Fn(<<>>, TInt, <<Asg("+=", V(GG), I(1)), Ex(V(GG))>>), "bumpg"),
+  \* applyn :: fn f: fn int -> int, n: int, x: int -> int do if n <= 0 do ret x end ; f(applyn(f, n - 1, x)) end
+  DefN(GMkP, "const", TNone,
+       Fn(<<P(18, TFn(<<TInt>>, TInt)), P(19, TInt), P(20, TInt)>>, TInt,
+          <<Ex(If1(Bin("<=", V(19), I(0)), <<Ret(V(20))>>)),
+            Ex(Call(V(18), <<Call(V(GMkP), <<V(18), Bin("-", V(19), I(1)), V(20)>>)>>))>>), "applyn"),
   \* twice :: fn f: fn int -> int, n: int -> int do f(f(n)) end
   DefN(GTwice, "const", TNone,
        Fn(<<P(9, TFn(<<TInt>>, TInt)), P(10, TInt)>>, TInt, <<Ex(Call(V(9), <<Call(V(9), <<V(10)>>)>>))>>), "twice")
@@ -75,8 +81,8 @@ KK == V(12)
 TemplateNames == {
   "lit7", "var", "const", "glob", "add", "sub", "mul", "neg", "ifx", "ifelif", "casex", "caseelse",
   "callinc", "tick", "rec", "iife", "capture", "tupidx", "fld", "meth", "fldthencall", "len", "fold",
-  "earlyret", "loopsum", "asgops", "twice", "counter", "bumpg", "nestedfn", "shadowblock",
-  "blit", "lt", "le", "eqi", "nei", "eqs", "eqt", "ltt", "lts", "and", "or", "not", "tickb", "eqlist",
+  "earlyret", "loopsum", "asgops", "twice", "counter", "bumpg", "nestedfn", "shadowblock", "iterclo", "casebindclo",
+  "applyn", "blit", "lt", "le", "eqi", "nei", "eqs", "eqt", "ltt", "lts", "and", "or", "not", "tickb", "eqlist",
   "flit", "fadd", "fmul", "fdiv", "fneg",
   "slit", "cat", "sif",
   "tlit", "tadd", "tsub", "tmul",
@@ -87,7 +93,8 @@ TemplateNames == {
 ResultType(n) ==
   CASE n \in {"lit7", "var", "const", "glob", "add", "sub", "mul", "neg", "ifx", "ifelif", "casex", "caseelse",
               "callinc", "tick", "rec", "iife", "capture", "tupidx", "fld", "meth", "fldthencall", "len", "fold",
-              "earlyret", "loopsum", "asgops", "twice", "counter", "bumpg", "nestedfn", "shadowblock"} -> "int"
+              "earlyret", "loopsum", "asgops", "twice", "counter", "bumpg", "nestedfn", "shadowblock",
+              "iterclo", "casebindclo", "applyn"} -> "int"
     [] n \in {"blit", "lt", "le", "eqi", "nei", "eqs", "eqt", "ltt", "lts", "and", "or", "not", "tickb", "eqlist"} -> "bool"
     [] n \in {"flit", "fadd", "fmul", "fdiv", "fneg"} -> "float"
     [] n \in {"slit", "cat", "sif"} -> "str"
@@ -99,7 +106,7 @@ HoleTypes(n) ==
   CASE n \in {"lit7", "var", "const", "glob", "blit", "flit", "slit", "ey", "bumpg"} -> <<>>
     [] n \in {"add", "sub", "mul", "lt", "le", "eqi", "nei", "tlit", "llit", "tupidx", "fdiv", "twice"} -> <<"int", "int">>
     [] n \in {"neg", "callinc", "tick", "rec", "iife", "capture", "fld", "meth", "fldthencall", "loopsum",
-              "asgops", "counter", "nestedfn", "shadowblock", "ex", "lpush"} -> <<"int">>
+              "asgops", "counter", "nestedfn", "shadowblock", "ex", "lpush", "iterclo", "casebindclo", "applyn"} -> <<"int">>
     [] n = "ifx" -> <<"bool", "int", "int">>
     [] n = "ifelif" -> <<"bool", "bool", "int">>
     [] n = "casex" -> <<"E", "int", "int">>
@@ -172,6 +179,31 @@ T(n, b, h) ==
          IIFE(TInt, <<DefM(b + 1, TInt, h[1]),
                       Block(<<DefM(b + 2, TInt, Bin("+", V(b + 1), I(1))), Asg("=", V(b + 1), Bin("*", V(b + 2), I(2)))>>),
                       Ex(V(b + 1))>>)
+    [] n = "iterclo" ->
+         IIFE(TInt, <<DefC(b + 1, TList(TFn(<<>>, TInt)), Lst(<<>>)), DefM(b + 2, TInt, I(0)),
+                      Loop(Bin("<", V(b + 2), I(3)),
+                           <<DefM(b + 3, TInt, Bin("*", V(b + 2), h[1])),
+                             Ex(Call(Std("list.push"), <<V(b + 1), Fn(<<>>, TInt, <<Asg("+=", V(b + 3), I(1)), Ex(V(b + 3))>>)>>)),
+                             Asg("+=", V(b + 2), I(1))>>),
+                      DefM(b + 4, TInt, I(0)),
+                      Ex(Call(Std("for_each"), <<V(b + 1),
+                            Fn(<<P(b + 5, TFn(<<>>, TInt))>>, TVoid,
+                               <<Asg("=", V(b + 4), Bin("+", Bin("*", V(b + 4), I(10)),
+                                                         Bin("+", Call(V(b + 5), <<>>), Call(V(b + 5), <<>>))))>>)>>)),
+                      Ex(V(b + 4))>>)
+    [] n = "casebindclo" ->
+         IIFE(TInt, <<DefC(b + 1, TList(TFn(<<>>, TInt)), Lst(<<>>)),
+                      Ex(Call(Std("for_each"), <<Lst(<<Var1("E", "X", h[1]), Var0("E", "Y"), Var1("E", "X", I(7))>>),
+                            Fn(<<P(b + 2, TE)>>, TVoid,
+                               <<Ex(CaseT(V(b + 2),
+                                     <<CArmB("X", b + 3, <<Ex(Call(Std("list.push"), <<V(b + 1), Fn(<<>>, TInt, <<Ex(V(b + 3))>>)>>))>>),
+                                       CArm("Y", <<Ex(Call(Std("list.push"), <<V(b + 1), Fn(<<>>, TInt, <<Ex(I(0))>>)>>))>>)>>))>>)>>)),
+                      DefM(b + 4, TInt, I(0)),
+                      Ex(Call(Std("for_each"), <<V(b + 1),
+                            Fn(<<P(b + 5, TFn(<<>>, TInt))>>, TVoid,
+                               <<Asg("=", V(b + 4), Bin("+", Bin("*", V(b + 4), I(10)), Call(V(b + 5), <<>>)))>>)>>)),
+                      Ex(V(b + 4))>>)
+    [] n = "applyn" -> Call(V(GMkP), <<Fn(<<P(b + 1, TInt)>>, TInt, <<Ex(Bin("+", Bin("*", V(b + 1), I(2)), h[1]))>>), I(2), I(1)>>)
     [] n = "blit"  -> Bo(TRUE)
     [] n = "lt"    -> Bin("<", h[1], h[2])
     [] n = "le"    -> Bin("<=", h[1], h[2])
